@@ -8,13 +8,14 @@
    the trees of the live layouts of model/RelLive.v), RelLiveStepP.v (entries, contents),
    RelLiveWfP.v (well-formedness, totality), RelLiveNormP.v (the bridges to C10's fields),
    RelLiveHistP.v (one operation, histories, re-read), RelEditParsedP.v + RelLiveParsedP.v (operands
-   obtained by parsing).
+   obtained by parsing), RelHandlesP.v (handles obtained at any earlier time: model/RelHandles.v).
 
    The model (model/RelEdit.v) is the editing API of debian-control/src/lossless/relations.rs
    over a store of trees with re-based handles (rowan's red layer as the code experiences it);
    model/RelEditSpec.v holds the list-of-lists model [lfield], its operations [astep], how an
    abstract operation is issued to the register machine [compile] (every edit below the root
-   goes through handles obtained from the current root right before it), the canonical trees
+   goes through handles obtained from the current root right before it; section 1d lifts this:
+   any program through any registers), the canonical trees
    the constructors build [cfield_tree] and the statement of the whole property [C11_full].
 
    The code violated the property in eleven places, each reproduced on the real code through the
@@ -25,6 +26,12 @@
    applied), [shipped] the code before them (c2fa7c8); the positive theorems are about [fixed];
    for every defect there is a `_refuted` theorem with the failing history on [shipped], on the
    variant that lacks only that fix, and the repaired outcome on [fixed].
+   A twelfth, the recorded finding c11-handle-after-rebuild (six operations re-built the green tree
+   and re-rooted `self`, so a handle taken earlier went stale), is repaired by
+   proposed_fixes/C11-10-in-place-splice.patch (pending commit): every edit is now an in-place
+   splice_children on the live node.  [fixed] includes it (flag fx_in_place); the variants
+   without_* of the eight earlier fixes are "that fix and C11-10 missing", [without_in_place] is the
+   code with the eight fixes only.
 
    What is proved and what is not (C11_full stays a Definition, see C11_partial_note below):
    * PROVED, unbounded, for ANY WELL-FORMED FIELD in the sense of C10 (RelGrammar.wf_rfield:
@@ -66,11 +73,16 @@
      rtree_of; the converse, that nothing else parses without error, is not proved);
      (c) section 1b states the content with C10's [rcontent]/[racc] (name, qualifier, operator
      and version text, architectures, profiles) and C11_full with this cone's accessor model
-     [structure]; the two are not connected by a theorem for arbitrary layouts;
-     (d) handles obtained earlier than the last mutation (finding c11-handle-after-rebuild). *)
-From V.model Require Import Base RelLex RelParse RelAcc RelGrammar RelEdit RelEditSpec RelEditTree RelLive.
+     [structure]; the two are not connected by a theorem for arbitrary layouts.
+   * PROVED with proposed_fixes/C11-10 (section 1d): handles obtained at ANY earlier time.  For
+     every program of the eighteen operations through arbitrary registers (in scope: see 1d) the
+     machine does not panic, the root holds the list model's content, and every Entry / Relation
+     handle denotes the entry / alternative the abstract reading says it does (positions shifted
+     by the edits in front of it) — C11_handles_step, _history, _history_field.  The pre-fix
+     code refutes it: C11_in_place_refuted, C11_in_place_relation_refuted. *)
+From V.model Require Import Base RelLex RelParse RelAcc RelGrammar RelEdit RelEditSpec RelEditTree RelLive RelHandles.
 From V.proofs Require Import BaseP RelEditP RelEditStP RelEditHistP RelEditReparseP RelEditFullP RelEditRefuteP.
-From V.proofs Require Import RelEditTreeP RelEditReplaceP RelEditParsedP RelLiveP RelLiveStepP RelLiveWfP RelLiveNormP RelLiveHistP RelLiveParsedP.
+From V.proofs Require Import RelEditTreeP RelEditReplaceP RelEditParsedP RelLiveP RelLiveStepP RelLiveWfP RelLiveNormP RelLiveHistP RelLiveParsedP RelHandlesP.
 
 (* the whole property, as a statement about a variant of the code (model/RelEditSpec.v) *)
 Definition C11_partial_note : Prop := C11_full fixed.
@@ -480,6 +492,118 @@ Check C11_any_mixed_history_from_text : forall ops f, wf_rfield true f = true ->
               racc_view a = (fold_left gxstep ops (fst (rcontent f)), snd (rcontent f)).
 Print Assumptions C11_any_mixed_history_from_text.
 
+(* 1d. Handles obtained at ANY earlier time (the former finding c11-handle-after-rebuild, turned
+   into theorems by proposed_fixes/C11-10).  model/RelHandles.v reads ANY program of the eighteen
+   operations of the register machine, issued through ANY registers (as the rel-edit stream issues
+   them: handles are kept and used after other edits), on the list model: a register holds a
+   REFERENCE — the root, the i-th entry, the j-th alternative of the i-th entry, an operand not yet
+   handed over, or a node that has left the field — and [h_op] says what the operation does to
+   the content (one step of xstep, or nothing) and how every reference moves (insert in front:
+   +1; remove in front: -1; the removed / replaced node: Gone).  [Rel b sv st a]: the root
+   register of the machine state st holds the tree of a well-formed live layout with content
+   (h_f a, sv) and EVERY register holds what the abstract state a says: a handle to that very
+   entry / alternative of the current tree.  Scope (h_op = None otherwise): operands built by
+   Entry::from(vec![Relation::new(..)..]) / Relation::new(..) and handed over as built; no
+   operation is issued through a handle whose node has left the field or through a handle into
+   an operand; positions in range. *)
+(* one operation, through whatever registers it names: no panic, and the relation holds again — the root holds the layout with the list model's content, every handle (obtained at any earlier time) denotes the entry / alternative the abstract state says *)
+Theorem C11_handles_step : forall b sv st a o a' tr,
+  Rel b sv st a -> h_op o a = Some (a', tr) -> forallb operands_ok tr = true ->
+  exists out st', run_op fixed o st = Ok (out, st') /\ Rel b sv st' a'.
+Proof. exact handles_step. Qed.
+Check C11_handles_step : forall b sv st a o a' tr,
+  Rel b sv st a -> h_op o a = Some (a', tr) -> forallb operands_ok tr = true ->
+  exists out st', run_op fixed o st = Ok (out, st') /\ Rel b sv st' a'.
+Print Assumptions C11_handles_step.
+
+(* programs, by induction *)
+Theorem C11_handles_history : forall b sv ops st a a' tr,
+  Rel b sv st a -> h_ops ops a = Some (a', tr) -> forallb operands_ok tr = true ->
+  exists st', run_ops fixed ops st = Ok st' /\ Rel b sv st' a'.
+Proof. exact handles_history. Qed.
+Check C11_handles_history : forall b sv ops st a a' tr,
+  Rel b sv st a -> h_ops ops a = Some (a', tr) -> forallb operands_ok tr = true ->
+  exists st', run_ops fixed ops st = Ok st' /\ Rel b sv st' a'.
+Print Assumptions C11_handles_history.
+
+(* (1)-(3) for handles obtained at any time — the analogue of C04H_history: from ANY well-formed field, ANY in-scope program of the eighteen operations through ANY registers runs without panic; the root then holds a well-formed layout whose content is the list model's history [tr] folded over the content of the field, substitution variables unchanged; its text reads back without error to exactly that content; and every register denotes what the abstract state says (Rel) *)
+Theorem C11_handles_history_field : forall b f st ops a' tr,
+  wf_rfield b f = true -> holds st (rtree_of f) ->
+  h_ops ops (mk_hstate (fst (rcontent f)) (h_of st)) = Some (a', tr) -> forallb operands_ok tr = true ->
+  exists st' l',
+    run_ops fixed ops st = Ok st' /\
+    Rel b (snd (rcontent f)) st' a' /\
+    h_f a' = fold_left xstep tr (fst (rcontent f)) /\
+    root_tree st' = Ok (ltree l') /\ root_text st' = Ok (text (ltree l')) /\
+    lwf b l' = true /\ lcontent l' = (fold_left xstep tr (fst (rcontent f)), snd (rcontent f)) /\
+    exists acc, parse_relaxed (text (ltree l')) b = Ok (rtree_of (norm l'), 0) /\
+                text (rtree_of (norm l')) = text (ltree l') /\
+                racc (rtree_of (norm l')) = Ok acc /\
+                racc_view acc = (fold_left xstep tr (fst (rcontent f)), snd (rcontent f)).
+Proof. exact handles_history_field. Qed.
+Check C11_handles_history_field : forall b f st ops a' tr,
+  wf_rfield b f = true -> holds st (rtree_of f) ->
+  h_ops ops (mk_hstate (fst (rcontent f)) (h_of st)) = Some (a', tr) -> forallb operands_ok tr = true ->
+  exists st' l',
+    run_ops fixed ops st = Ok st' /\
+    Rel b (snd (rcontent f)) st' a' /\
+    h_f a' = fold_left xstep tr (fst (rcontent f)) /\
+    root_tree st' = Ok (ltree l') /\ root_text st' = Ok (text (ltree l')) /\
+    lwf b l' = true /\ lcontent l' = (fold_left xstep tr (fst (rcontent f)), snd (rcontent f)) /\
+    exists acc, parse_relaxed (text (ltree l')) b = Ok (rtree_of (norm l'), 0) /\
+                text (rtree_of (norm l')) = text (ltree l') /\
+                racc (rtree_of (norm l')) = Ok acc /\
+                racc_view acc = (fold_left xstep tr (fst (rcontent f)), snd (rcontent f)).
+Print Assumptions C11_handles_history_field.
+
+(* what the relation says about the root *)
+Theorem C11_handles_reread : forall b sv st a, Rel b sv st a ->
+  exists l, root_tree st = Ok (ltree l) /\ root_text st = Ok (text (ltree l)) /\
+            lwf b l = true /\ lcontent l = (h_f a, sv) /\
+            exists acc, parse_relaxed (text (ltree l)) b = Ok (rtree_of (norm l), 0) /\
+                        text (rtree_of (norm l)) = text (ltree l) /\
+                        racc (rtree_of (norm l)) = Ok acc /\ racc_view acc = (h_f a, sv).
+Proof. exact Rel_reread. Qed.
+Check C11_handles_reread : forall b sv st a, Rel b sv st a ->
+  exists l, root_tree st = Ok (ltree l) /\ root_text st = Ok (text (ltree l)) /\
+            lwf b l = true /\ lcontent l = (h_f a, sv) /\
+            exists acc, parse_relaxed (text (ltree l)) b = Ok (rtree_of (norm l), 0) /\
+                        text (rtree_of (norm l)) = text (ltree l) /\
+                        racc (rtree_of (norm l)) = Ok acc /\ racc_view acc = (h_f a, sv).
+Print Assumptions C11_handles_reread.
+
+(* what it says about an Entry handle: Entry::to_string() through the (old) handle is the text of the i-th entry of the field as it is now *)
+Theorem C11_handles_entry : forall b sv st a k i, Rel b sv st a -> h_reg a (ereg k) = Some (ELive i) ->
+  exists l e, root_tree st = Ok (ltree l) /\ lcontent l = (h_f a, sv) /\
+              nth_error (lentries l) i = Some e /\
+              reg_text (ereg k) st = Ok (Some (text (lentry_tree e)), st).
+Proof. exact Rel_entry_handle. Qed.
+Check C11_handles_entry : forall b sv st a k i, Rel b sv st a -> h_reg a (ereg k) = Some (ELive i) ->
+  exists l e, root_tree st = Ok (ltree l) /\ lcontent l = (h_f a, sv) /\
+              nth_error (lentries l) i = Some e /\
+              reg_text (ereg k) st = Ok (Some (text (lentry_tree e)), st).
+Print Assumptions C11_handles_entry.
+
+(* and about a Relation handle *)
+Theorem C11_handles_relation : forall b sv st a m i j, Rel b sv st a -> h_reg a (rreg m) = Some (RLive i j) ->
+  exists l e r, root_tree st = Ok (ltree l) /\ lcontent l = (h_f a, sv) /\
+                nth_error (lentries l) i = Some e /\ nth_rel e j = Some r /\
+                reg_text (rreg m) st = Ok (Some (text (lrel_tree r)), st).
+Proof. exact Rel_relation_handle. Qed.
+Check C11_handles_relation : forall b sv st a m i j, Rel b sv st a -> h_reg a (rreg m) = Some (RLive i j) ->
+  exists l e r, root_tree st = Ok (ltree l) /\ lcontent l = (h_f a, sv) /\
+                nth_error (lentries l) i = Some e /\ nth_rel e j = Some r /\
+                reg_text (rreg m) st = Ok (Some (text (lrel_tree r)), st).
+Print Assumptions C11_handles_relation.
+
+(* the relation holds at the start, whatever the other registers hold (h_of: Gone) *)
+Theorem C11_handles_start : forall b st l, holds st (ltree l) -> lwf b l = true ->
+  Rel b (snd (lcontent l)) st (mk_hstate (fst (lcontent l)) (h_of st)).
+Proof. exact Rel_of_holds. Qed.
+Check C11_handles_start : forall b st l, holds st (ltree l) -> lwf b l = true ->
+  Rel b (snd (lcontent l)) st (mk_hstate (fst (lcontent l)) (h_of st)).
+Print Assumptions C11_handles_start.
+
 (* 2. Constructor-built fields read back as the list they were built from, and print canonically *)
 Theorem C11_structure_constructed : forall f, plain_field f = true -> structure (cfield_tree f) = Ok f.
 Proof. exact structure_cfield. Qed.
@@ -771,4 +895,33 @@ Example C11_any_parsed_ex :
   run_text fixed (IRelaxed (rrender f)) (gcompile_all ops) = Ok [32; 101; 40; 32; 61; 49; 58; 50; 32; 41; 44; 32; 119; 10; 32; 124; 32; 98; 58; 97; 110; 121; 32; 32; 124; 32; 122; 32; 58; 97; 110; 121; 32; 44; 32; 36; 123; 120; 125; 44; 32; 44; 32; 120; 32; 124; 121; 32; 40; 60; 60; 32; 51; 41; 44; 32; 100]%N /\
   option_map (fun l => rrender (norm l)) (g_ops ops (live_of f)) = Some [32; 101; 40; 32; 61; 49; 58; 50; 32; 41; 44; 32; 119; 10; 32; 124; 32; 98; 58; 97; 110; 121; 32; 32; 124; 32; 122; 32; 58; 97; 110; 121; 32; 44; 32; 36; 123; 120; 125; 44; 32; 44; 32; 120; 32; 124; 121; 32; 40; 60; 60; 32; 51; 41; 44; 32; 100]%N /\
   reads_clean [32; 101; 40; 32; 61; 49; 58; 50; 32; 41; 44; 32; 119; 10; 32; 124; 32; 98; 58; 97; 110; 121; 32; 32; 124; 32; 122; 32; 58; 97; 110; 121; 32; 44; 32; 36; 123; 120; 125; 44; 32; 44; 32; 120; 32; 124; 121; 32; 40; 60; 60; 32; 51; 41; 44; 32; 100]%N = true.
+Proof. vm_compute. repeat split; reflexivity. Qed.
+
+(* Non-vacuity of the handle theorems: "a, b | c, d"; handles to the entry "b | c", to its
+   alternative "c" and to the entry "d" are taken FIRST and never re-obtained; then an entry is
+   inserted in front, an entry in front is removed, and the edits go through the old handles:
+   set_version on c, Entry::push on d, get_relation(0) + Relation::remove on b, set_archqual on c,
+   Entry::remove on d.  The abstract reading gives the history of the list model and where every
+   handle points at the end; the machine (fixed) prints the list model's result; without
+   proposed_fixes/C11-10 the same program loses the edits. *)
+Example C11_handles_ex :
+  let x n := mk_relx n None None None [] in
+  let n s v := mk_relrec s None v None [] in
+  let ops := [OGetEntry 0 1; OGetRel 0 0 1; OGetEntry 1 2;
+              ONewEntry 2 (entry_spec [n [120%N] None]); OInsert 0 2;
+              ORemoveEntry 1;
+              OSetVersion 0 (Some (VGe, [49%N]));
+              ONewRel 1 (rel_spec (n [122%N] None)); OEPush 1 1;
+              OGetRel 1 0 0; ORRemove 1;
+              OSetArchqual 0 [97;110;121]%N;
+              OERemove 1] in
+  let tr := [AInsert 0 [n [120%N] None]; ARemoveEntry 1; ASetVersion 1 1 (Some (VGe, [49%N]));
+             AEPush 2 (n [122%N] None); ARemoveRelation 1 0; ASetArchqual 1 0 [97;110;121]%N; ARemoveEntry 2] in
+  option_map (fun p => (h_f (fst p), snd p, h_reg (fst p) (ereg 0), h_reg (fst p) (rreg 0), h_reg (fst p) (ereg 1), h_reg (fst p) (rreg 1)))
+             (h_ops ops (h_start [[x [97%N]]; [x [98%N]; x [99%N]]; [x [100%N]]]))
+  = Some ([[x [120%N]]; [mk_relx [99%N] (Some [97;110;121]%N) (Some (RelAcc.VGe, [49%N])) None []]], tr,
+          Some (ELive 1), Some (RLive 1 0), Some Gone, Some Gone) /\
+  forallb operands_ok tr = true /\
+  run_text fixed (IStrict [97; 44; 32; 98; 32; 124; 32; 99; 44; 32; 100]%N) ops = Ok [120; 44; 32; 99; 58; 97; 110; 121; 32; 40; 62; 61; 32; 49; 41]%N /\
+  run_text without_in_place (IStrict [97; 44; 32; 98; 32; 124; 32; 99; 44; 32; 100]%N) ops = Ok [120; 44; 32; 98; 32; 124; 32; 99; 44; 32; 100]%N.
 Proof. vm_compute. repeat split; reflexivity. Qed.
